@@ -6,6 +6,7 @@ import (
 	"os"
 	"runtime/debug"
 	"strings"
+	"sync"
 	"testing"
 
 	"pgregory.net/rapid"
@@ -115,4 +116,59 @@ func DetU64(seed uint64) uint64 {
 		x ^= x << 17
 	}
 	return x
+}
+
+// Pool keeps the first cases of a run for its concurrent phase.
+type Pool[T any] struct {
+	mu    sync.Mutex
+	Items []T
+	Max   int
+}
+
+func (p *Pool[T]) Add(x T) {
+	p.mu.Lock()
+	if p.Max == 0 {
+		p.Max = 256
+	}
+	if len(p.Items) < p.Max {
+		p.Items = append(p.Items, x)
+	}
+	p.mu.Unlock()
+}
+
+// RunConcurrent applies the sequential oracle to the pooled cases from several goroutines at once, each in its own
+// order: code that is a function of its arguments gives every caller the answer for its own case, whoever else is
+// calling. The first failure of each worker is recorded (replay = that case; it may need the company to fail again).
+func RunConcurrent[T any](t *testing.T, run *evid.Run, items []T, workers, rounds int, oracle func(T) error) {
+	if len(items) == 0 {
+		return
+	}
+	var wg sync.WaitGroup
+	errs := make(chan error, workers)
+	for w := 0; w < workers; w++ {
+		wg.Add(1)
+		go func(w int) {
+			defer wg.Done()
+			for r := 0; r < rounds; r++ {
+				for i := range items {
+					c := items[(i*(2*w+1)+r+w)%len(items)]
+					if err := oracle(c); err != nil {
+						if strings.HasPrefix(err.Error(), "INFRA:") {
+							return
+						}
+						msg := fmt.Sprintf("under concurrent use from %d goroutines: %v", workers, err)
+						p := run.ViolationNamed(fmt.Sprintf("concurrent-w%d", w), c, msg)
+						errs <- fmt.Errorf("violation (replay %s): %s", p, msg)
+						return
+					}
+				}
+			}
+		}(w)
+	}
+	wg.Wait()
+	close(errs)
+	run.Class("concurrent:evaluations", int64(workers*rounds*len(items)))
+	for err := range errs {
+		t.Errorf("%v", err)
+	}
 }
